@@ -238,7 +238,11 @@ Record obs := mkobs { o_status : N; o_loc : bytes; o_ce : bytes; o_kind : N;
 
 Inductive case :=
 | CSkip                                   (* net/http rejected the request line; nothing to judge *)
-| CReq (s : site) (r : request) (o : obs).
+| CReq (s : site) (r : request) (o : obs)
+(* a site with a path prefix: the server's prefix trimming (url.Parse of the escaped rest) is not
+   modelled; [r] carries the path the handlers saw as computed by the harness, and only the
+   executable property is judged *)
+| CContract (s : site) (r : request) (o : obs).
 
 Definition mem_N (l : list N) (x : N) : bool := existsb (N.eqb x) l.
 Definition mem_b (l : list bytes) (x : bytes) : bool := existsb (beq x) l.
@@ -321,4 +325,5 @@ Definition judge (c : case) : N :=
   match c with
   | CSkip => 0
   | CReq s r o => verdict (agree s r o) (spec_ok s r o)
+  | CContract s r o => verdict true (spec_ok s r o)
   end.
